@@ -75,15 +75,23 @@ func C20_ZeroCapacity[T signal.SignalTypes]() {
 	vf.Assert("no-panic", !panicked)
 }
 
-// C20_Pool: the zero allocator through a pool.
+// C20_Pool: degenerate allocators through a pool (zero value; zero channels with any length/capacity request;
+// zero capacity with 1..3 channels): get, put, get again.
 func C20_Pool[T signal.SignalTypes]() {
+	C := vf.Pick("C", 0, 3)
+	K := 0
+	if C == 0 {
+		K = vf.Pick("K", 0, 3)
+	}
+	L := vf.Pick("L", 0, K)
 	panicked := vf.Panics(func() {
-		p := signal.PoolAlloc[T](signal.Allocator{})
+		p := signal.PoolAlloc[T](signal.Allocator{Channels: C, Length: L, Capacity: K})
 		b := p.Get()
-		vf.Assert("pool-zero-buffer", b.Len() == 0 && b.Cap() == 0 && b.Channels() == 0 && b.Length() == 0 && b.Capacity() == 0)
+		vf.Assert("pool-inert-buffer", b.Len() == 0 && b.Cap() == 0 && b.Channels() == C && b.Length() == 0 && b.Capacity() == 0)
+		b.AppendSample(vf.Any[T]("v"))
 		p.Put(b)
 		g := p.Get()
-		vf.Assert("pool-zero-buffer-again", g.Len() == 0 && g.Cap() == 0 && g.Channels() == 0)
+		vf.Assert("pool-inert-buffer-again", g.Len() == 0 && g.Cap() == 0 && g.Channels() == C && g.Length() == 0 && g.Capacity() == 0)
 	})
 	vf.Assert("no-panic", !panicked)
 }
